@@ -119,14 +119,20 @@ class Code15(Code13):
                 continue
             prev_offset = offset
             prev_line_number = line_number
-            while offset_diff >= 256:
+            # Advance the address first: a line increment applies at
+            # the address reached so far.
+            while offset_diff > 255:
                 co_lnotab += chr(255)
                 co_lnotab += chr(0)
                 offset_diff -= 255
-            while line_diff >= 256:
-                co_lnotab += chr(0)
-                co_lnotab += chr(255)
-                line_diff -= 255
+            # Keep each line increment below 128 so that the table
+            # reads the same whether increments are taken as unsigned
+            # (before 3.6) or signed bytes.
+            while line_diff > 127:
+                co_lnotab += chr(offset_diff)
+                co_lnotab += chr(127)
+                offset_diff = 0
+                line_diff -= 127
             co_lnotab += chr(offset_diff)
             co_lnotab += chr(line_diff)
 
